@@ -70,6 +70,9 @@ CHECKS = {
  "C17": ("exploration", "property-based testing over a compiled corpus of derived types x generated values; determinism, well-formedness walker, JSON round trip and serialize/deserialize/container round-trip oracles",
          "Each derived schema is computed repeatedly and compared, walked by the harness's well-formedness walker, resolved, round-tripped through JSON; every generated value of each type serializes under the derived schema, reads back equal (datum, container file, single-object) and is accepted by the reference decoder.",
          "The type corpus is fixed at compile time (attribute combinations enumerated by hand in harness/src/corpus.rs); a derive defect needing a type outside the corpus is not reached.", "DESIGN.md §4 C17"),
+ "C19": ("exploration", "property-based testing over generated thread schedules, one fresh child process per schedule (the settings are write-once per process); agreement/first-writer/return-value oracles over all observers plus boundary enumeration of every decoder at limit-1/limit/limit+1",
+         "Generated schedules (setting x 2-8 setter/user threads x release delays x follow-up observers; racing or sequential) are executed in fresh processes; all observations must agree on one value proposed by a thread that started before any thread finished, setters must be told the truth, and for the allocation limit every decoder entry point is probed around the value in force.",
+         "Interleavings are sampled by the OS scheduler (threads released at a common instant of the monotonic clock), not enumerated: a race window of a few nanoseconds is found only with some probability per run; replay files fix the schedule, not the interleaving.", "DESIGN.md §4 C19"),
 }
 NOT_YET = {}
 
